@@ -19,6 +19,20 @@ def timesY (t : Times) : List (Y × Y) :=
   if t = Times.one then []
   else [(.str "times".toList, .dict [(.str "min".toList, .int t.lo), (.str "max".toList, .int t.hi)])]
 
+/-- one field of a `$deref` body with a literal value: `main_reg: rax` -/
+def yField : Pat → (Y × Y)
+  | .derefField n [.derefProp v 0] => (.str n, .str v)
+  | _ => (.null, .null)
+
+def nodeField : Pat → Node
+  | .derefField n [.derefProp v 0] => .mk n Times.one [leafNode v]
+  | _ => .mk [] Times.one []
+
+/-- the component values of a literal `$deref` are plain names -/
+def plainField : Pat → Bool
+  | .derefField _ [.derefProp v 0] => decide (PlainName v)
+  | _ => false
+
 mutual
 /-- operand-level patterns as written inside an item's operand list -/
 def yO : Pat → Y
@@ -27,6 +41,7 @@ def yO : Pat → Y
   | .or l t => .dict ((.str "$or".toList, .list (yOL l)) :: timesY t)
   | .anyOrder l t => .dict ((.str "$and_any_order".toList, .list (yOL l)) :: timesY t)
   | .not p _ t => .dict ((.str "$not".toList, .list [yO p]) :: timesY t)
+  | .deref fields _ => .dict [(.str "$deref".toList, .dict (fields.map yField))]
   | _ => .null
 def yOL : List Pat → List Y
   | [] => []
@@ -40,6 +55,7 @@ def nodeO : Pat → Node
   | .or l t => .mk "$or".toList t (nodeOL l)
   | .anyOrder l t => .mk "$and_any_order".toList t (nodeOL l)
   | .not p _ t => .mk "$not".toList t [nodeO p]
+  | .deref fields t => .mk "$deref".toList t (fields.map nodeField)
   | _ => .mk [] Times.one []
 def nodeOL : List Pat → List Node
   | [] => []
@@ -82,6 +98,7 @@ def srcO : Pat → Bool
   | .or l t => !l.isEmpty && srcOL l && okT t
   | .anyOrder l t => !l.isEmpty && srcOL l && okT t
   | .not p op t => op && srcO p && okT t
+  | .deref fields t => derefLit fields t && fields.all plainField
   | _ => false
 def srcOL : List Pat → Bool
   | [] => true
@@ -161,6 +178,67 @@ theorem srcOL_mem {l : List Pat} (h : srcOL l = true) : ∀ q ∈ l, srcO q = tr
     · exact h.1
     · exact ih h.2 q hq
 
+/-! ## literal `$deref` operands through the front end -/
+
+theorem typ_derefLeaf (v : Str) (hv : PlainName v) (caps : List Str) :
+    typ .derefKids .deref (leafNode v) caps = .ok (.derefProp v 0, caps) := by
+  have h1 := plain_ne v hv "$and".toList (by decide)
+  have h2 := plain_ne v hv "$or".toList (by decide)
+  have h3 := plain_ne v hv "$not".toList (by decide)
+  have h4 := plain_ne v hv "$and_any_order".toList (by decide)
+  obtain ⟨h7, h8⟩ := plain_not_capture v hv
+  rw [leafNode, typ.eq_def]
+  simp only [h1, h2, h3, h4, h7, h8, if_false, Bool.false_eq_true]
+  simp [pure, Except.pure]
+
+theorem typField_lit (fname v : Str) (hv : PlainName v) (rest : List Node) (caps : List Str) :
+    typFields (.mk fname Times.one [leafNode v] :: rest) caps =
+      (typFields rest caps >>= fun r => pure (.derefField fname [.derefProp v 0] :: r.1, r.2)) := by
+  rw [typFields]
+  simp only [List.isEmpty_cons, Bool.false_eq_true, if_false, typList, typ_derefLeaf v hv caps, bind, Except.bind, pure, Except.pure]
+
+theorem typFields_lit : ∀ (fields : List Pat), fields.all plainField = true → ∀ (caps : List Str),
+    typFields (fields.map nodeField) caps = .ok (fields, caps)
+  | [], _, caps => by simp [typFields, pure, Except.pure]
+  | f :: rest, h, caps => by
+    simp only [List.all_cons, Bool.and_eq_true] at h
+    have ih := typFields_lit rest h.2 caps
+    have hf := h.1
+    unfold plainField at hf
+    split at hf
+    · rename_i n v
+      have hv : PlainName v := by simpa using hf
+      simp only [List.map_cons, nodeField]
+      rw [typField_lit n v hv, ih]
+      rfl
+    · cases hf
+
+theorem build_deref (d : C06.DerefSpec) :
+    build (yO (.deref d.fields Times.one)) = .ok (nodeO (.deref d.fields Times.one)) := by
+  obtain ⟨a, b, c, k⟩ := d
+  cases b <;> cases c <;> cases k <;>
+    simp [yO, nodeO, yField, nodeField, C06.DerefSpec.fields, C06.field, build, buildTuples, getTimes, dictHas, dictGet,
+      nameOf, Y.scalarStr, leafNode, List.find?, bind, Except.bind, pure, Except.pure]
+
+theorem typ_deref (fields : List Pat) (t : Times) (h : fields.all plainField = true) (caps : List Str) (ch : Chain)
+    (hch : ch = Chain.operand ∨ ch = Chain.general) :
+    typ ch .mnemonic (nodeO (.deref fields t)) caps = .ok (.deref fields t, caps) := by
+  have hne1 : "$deref".toList ≠ "$and".toList := by decide
+  have hne2 : "$deref".toList ≠ "$or".toList := by decide
+  have hne3 : "$deref".toList ≠ "$not".toList := by decide
+  have hne4 : "$deref".toList ≠ "$and_any_order".toList := by decide
+  have hne5 : "$deref".toList ≠ "times".toList := by decide
+  rcases hch with rfl | rfl <;>
+  · rw [nodeO, typ.eq_def]
+    simp only [hne1, hne2, hne3, hne4, hne5, if_true, if_false]
+    rw [typFields_lit fields h caps]
+    rfl
+
+theorem capNumbers_derefRx (d : C06.DerefSpec) : d.rx.capNumbers = [] := by
+  obtain ⟨a, b, c, k⟩ := d
+  cases b <;> cases c <;> cases k <;>
+    simp [C06.DerefSpec.rx, seqAll, Rx.capNumbers, capNumbers_lit, optionalPercent, optionalHex]
+
 theorem yI_beq_times (p : Pat) : (yI p == Y.str "times".toList) = false := by
   show Y.beq (yI p) (Y.str "times".toList) = false
   cases p <;> simp [yI, Y.beq]
@@ -170,8 +248,8 @@ theorem yO_beq_times (p : Pat) (h : srcO p = true) : (yO p == Y.str "times".toLi
   | operand n k =>
     simp only [srcO, Bool.and_eq_true, decide_eq_true_eq] at h
     exact str_beq_times n h.1.1
-  | and _ _ | or _ _ | anyOrder _ _ | not _ _ _ => exact dict_beq_times _
-  | mnem _ _ _ | timesMarker | deref _ _ | derefField _ _ | derefProp _ _ | capInstDef _ | capInstRef _
+  | and _ _ | or _ _ | anyOrder _ _ | not _ _ _ | deref _ _ => exact dict_beq_times _
+  | mnem _ _ _ | timesMarker | derefField _ _ | derefProp _ _ | capInstDef _ | capInstRef _
   | capOpDef _ | capOpRef _ | capDerefDef _ | capDerefRef _ | regDef _ | regRef _ => simp [srcO] at h
 
 theorem any_times_yIL (l : List Pat) : (yIL l).any (· == Y.str "times".toList) = false := by
@@ -250,7 +328,10 @@ theorem build_yO : ∀ (p : Pat), srcO p = true → build (yO p) = .ok (nodeO p)
     exact build_dict_list _ _ t _ (by decide) ha h.2 hb
   | .mnem _ _ _, h => by simp [srcO] at h
   | .timesMarker, h => by simp [srcO] at h
-  | .deref _ _, h => by simp [srcO] at h
+  | .deref fields t, h => by
+    simp only [srcO, Bool.and_eq_true] at h
+    obtain ⟨d, rfl, rfl, _, _⟩ := derefLit_spec h.1
+    exact build_deref d
   | .derefField _ _, h => by simp [srcO] at h
   | .derefProp _ _, h => by simp [srcO] at h
   | .capInstDef _, h => by simp [srcO] at h
@@ -423,7 +504,10 @@ theorem typ_nodeO (caps : List Str) : ∀ (p : Pat), srcO p = true → ∀ ch, (
       simp [bind, Except.bind, pure, Except.pure]
   | .mnem _ _ _, h, _, _ => by simp [srcO] at h
   | .timesMarker, h, _, _ => by simp [srcO] at h
-  | .deref _ _, h, _, _ => by simp [srcO] at h
+  | .deref fields t, h, ch, hch => by
+    simp only [srcO, Bool.and_eq_true] at h
+    obtain ⟨d, rfl, rfl, _, _⟩ := derefLit_spec h.1
+    exact typ_deref _ _ h.2 caps ch hch
   | .derefField _ _, h, _, _ => by simp [srcO] at h
   | .derefProp _ _, h, _, _ => by simp [srcO] at h
   | .capInstDef _, h, _, _ => by simp [srcO] at h
@@ -607,7 +691,13 @@ theorem comp_capFreeO (fl : Flags) (caps : List Str) :
     simp [Rx.capNumbers, ih, skipToEndOfOperand, clsNotCommaBar]
   | .mnem _ _ _, h, _, _ => by simp [srcO] at h
   | .timesMarker, h, _, _ => by simp [srcO] at h
-  | .deref _ _, h, _, _ => by simp [srcO] at h
+  | .deref fields t, h, r, hc => by
+    simp only [srcO, Bool.and_eq_true] at h
+    obtain ⟨d, rfl, rfl, hwf, _⟩ := derefLit_spec h.1
+    have : comp fl caps d.toPat = .ok r := hc
+    rw [C06.comp_deref fl caps d hwf] at this
+    cases this
+    exact capNumbers_derefRx d
   | .derefField _ _, h, _, _ => by simp [srcO] at h
   | .derefProp _ _, h, _, _ => by simp [srcO] at h
   | .capInstDef _, h, _, _ => by simp [srcO] at h
